@@ -470,3 +470,55 @@ def _collapse_condition(h, name):
 
 for _c in COLLAPSE_CONDS:
     contract('C11/termination.%s' % _c, ['C11', 'C10'], T + _c, native=False)(lambda h, c=_c: _collapse_condition(h, c))
+
+
+STATE_CASES = [
+    ('VTR', dict(tolerance=0.01, target=1.0)),
+    ('ChangeOverGeneration', dict(tolerance=1e-06, generations=5)),
+    ('NormalizedChangeOverGeneration', dict(tolerance=0.0001, generations=10)),
+    ('CandidateRelativeTolerance', dict(xtol=0.001, ftol=0.01)),
+    ('SolutionImprovement', dict(tolerance=1e-05)),
+    ('NormalizedCostTarget', dict(fval=None, tolerance=1e-06, generations=30)),
+    ('VTRChangeOverGeneration', dict(ftol=0.005, gtol=1e-06, generations=30, target=0.0)),
+    ('PopulationSpread', dict(tolerance=0.0001)),
+    ('EvaluationLimits', dict(generations=7, evaluations=None)),
+    ('CollapseAt', dict(target=None, tolerance=0.0001, generations=50, mask={1, 2})),
+    ('CollapseAs', dict(offset=False, tolerance=0.0001, generations=50, mask=None)),
+]
+
+
+@contract('C10/state-type-round-trip', ['C10', 'C11'], T + 'state', native=False)
+def state_round_trip(h):
+    """state(c) of a condition made by a factory is {description of c: exactly the settings it was made with} (compound:
+    the union over the members, to any depth), type(c) is the factory, and the condition rebuilt as
+    type(c)(**state(c)[description]) has the same description -- hence, the primitives being functions of their settings
+    and the solver (their own contracts), the same verdicts.  (The settings travel as python text in the description:
+    concrete settings, text produced and parsed back by CPython's own repr / this interpreter's eval.)"""
+    if not h.is_sym():
+        h.unsupported('symbolic only')
+    name, kw = h.choice('condition', STATE_CASES)
+    nested = h.choice('wrapped_in', ['nothing', 'Or', 'And(Or)'])
+    kwv = {k_: (h.st.alloc('set', sorted(v)) if isinstance(v, set) else v) for k_, v in kw.items()}
+    c = h.call(h.get(T + name), **kwv)
+    doc = h.getattr(c, '__doc__')
+    h.check('description-is-concrete-text-naming-the-factory', 'ok', ok=isinstance(doc, str) and doc.startswith(name + ' with '))
+    if not isinstance(doc, str):
+        return
+    other = h.call(h.get(T + 'VTR'), 0.5, 2.0)
+    if nested == 'Or':
+        top = h.call(h.get(T + 'Or'), other, c)
+    elif nested == 'And(Or)':
+        top = h.call(h.get(T + 'And'), h.call(h.get(T + 'Or'), c, other), other)
+    else:
+        top = c
+    st = h.call(h.get(T + 'state'), top)
+    cell = h.st.heap[st]
+    from pyvc.models import _concrete_py
+    got = _concrete_py(h.I, cell.get(doc)) if doc in cell else None
+    h.check('state-holds-exactly-the-settings-under-the-description', 'ok', ok=(got == kw))
+    h.check('state-has-one-entry-per-member', 'ok', ok=(len(cell) == (1 if nested == 'nothing' else 2)))
+    ty = h.call(h.get(T + 'type'), c)
+    h.check('type-is-the-factory', 'same(ty, f)', ty=ty, f=h.get(T + name))
+    if doc in cell:
+        again = h.call(ty, **dict(h.st.heap[cell[doc]]))
+        h.check('rebuilt-condition-has-the-same-description', 'ok', ok=(h.getattr(again, '__doc__') == doc))
